@@ -28,7 +28,7 @@ SPEC = dict(
     assumptions=["'matching' = R1 full match whose calendar parts denote an existing date; order = packaging",
                  "--ignore-vcs-tag is the documented opt-out: only 'tags do not influence the start' is asserted there",
                  "day-of-year 366 in a non-leap year is not generated (the statement does not say whether it matches)"],
-    required=["tags_omitting_an_optional_calendar_part", "real_git_head_without_commit", "fake_runs", "real_git_runs", "scope:default", "scope:global", "scope:branch", "ignore_runs",
+    required=["tags_omitting_an_optional_calendar_part", "real_git_head_without_commit", "real_git_linked_work_tree", "fake_runs", "real_git_runs", "scope:default", "scope:global", "scope:branch", "ignore_runs",
               "impossible_date_tags", "tie_cases", "uniqueness_checked", "no_matching_tag_cases", "cli_tag_scope_overrides", "show_pep440_line_checked", "fetch_failure_cases", "legacy_pattern_runs", "line_separator_in_tag_name", "non_utf8_tag_names", "non_utf8_bytes_inside_a_version_text", "legacy_tags_with_month_or_day_zero", "real_git_column_ui_always", "unicode_blank_at_tag_edge",
               "planned_result_is_a_pep440_equal_tag_elsewhere", "fake_hg_runs", "hg_changesets_with_several_tags"],
     anchors=[("cli", "_parse_version_tags"), ("cli", "get_latest_vcs_version_tag"), ("cli", "_update_cfg_from_vcs"),
@@ -433,6 +433,18 @@ def run_real(ctx, case):
             ctx.count("real_git_head_without_commit")
         tags_all = [t for t, _k in tags]
         tags_merged = [t for t in tags_all if placement[t] in reach]
+        if case["seed"] % 9 == 6 and head != "orphan":
+            # the same history seen from a LINKED work tree (`.git` is a file there): the tags are the same tags
+            wt = d + ".wt"
+            git(d, "worktree", "add", "-q", "-b", "wtbranch", wt, "HEAD")
+            ctx.count("real_git_runs")
+            ctx.count("real_git_linked_work_tree")
+            try:
+                observe(ctx, case, wt, dict(GIT_ENV, HOME=d), p, ast, tdy, cur, tags_all, tags_merged, scope, cli_scope, ignore,
+                        "real-git:linked-worktree", kinds)
+            finally:
+                harness.rm_dir(wt)
+            return
         ctx.count("real_git_runs")
         observe(ctx, case, d, env, p, ast, tdy, cur, tags_all, tags_merged, scope, cli_scope, ignore, "real-git:" + head, kinds)
     finally:
